@@ -441,7 +441,11 @@ func (m *Model) CreatePermission(c *RawClient, peers ...*net.UDPAddr) *wire.Msg 
 		for _, p := range peers {
 			b.Add(wire.AttrXORPeerAddress, wire.EncodeXorAddr(p.IP, p.Port, b.TID, mapped && p.IP.To4() != nil))
 		}
+		if lt := c.ExtraLifetime; lt != nil {
+			b.AddU32(wire.AttrLifetime, *lt)
+		}
 	})
+	c.ExtraLifetime = nil
 	if mapped {
 		m.Rec.FP("createperm/peer-as-ipv4-mapped-ipv6")
 	}
@@ -547,7 +551,13 @@ func (m *Model) ChannelBind(c *RawClient, num uint16, peer *net.UDPAddr) *wire.M
 	resp, _ := m.do(c, wire.MethodChannelBind, func(b *wire.Builder) {
 		b.Add(wire.AttrChannelNumber, []byte{byte(num >> 8), byte(num), 0, 0})
 		b.Add(wire.AttrXORPeerAddress, wire.EncodeXorAddr(peer.IP, peer.Port, b.TID, mapped))
+		if lt := c.ExtraLifetime; lt != nil {
+			// a LIFETIME attribute means nothing in this request: bindings and permissions last
+			// what the server is configured with
+			b.AddU32(wire.AttrLifetime, *lt)
+		}
 	})
+	c.ExtraLifetime = nil
 	if mapped {
 		m.Rec.FP("chanbind/peer-as-ipv4-mapped-ipv6")
 	}
